@@ -224,3 +224,17 @@ func LemmaBsRunNonNeg(s string, i int) {
 	}
 	LemmaBsRunNonNeg(s, i-1)
 }
+
+// strings.CutSuffix
+//@ extern strings.CutSuffix
+//@   params s suffix
+//@   results before found
+//@   ensures found == SpecHasSuffix(s, suffix)
+//@   ensures before == iteS(SpecHasSuffix(s, suffix), s[:len(s)-len(suffix)], s)
+
+func iteS(c bool, a, b string) string {
+	if c {
+		return a
+	}
+	return b
+}
